@@ -223,7 +223,7 @@ func body(c *runner.Ctx, faults bool) {
 				ex.val, ex.err = graphql.NewExecutor(sched).Execute(ctx, schema.Query, nil, q)
 			}
 			ex.done = true
-			simrt.Logf("exec %d end err=%v", ex.idx, ex.err)
+			simrt.Logf("exec %d end err=%s", ex.idx, errLine(ex.err))
 		}()
 	}
 	// never wait unboundedly on the system under test: poll with a horizon of
@@ -417,4 +417,13 @@ func matchesSomeFailure(w *world, ex *execution, fails []failRec) bool {
 		}
 	}
 	return false
+}
+
+// errLine: the first line of an error (panic errors carry a stack trace with
+// addresses, which must not leak into the event log used for replay diffs).
+func errLine(err error) string {
+	if err == nil {
+		return "<nil>"
+	}
+	return firstLine(err)
 }
